@@ -98,7 +98,12 @@ func vPick(d *Document, name string, typ int, val int) vOp {
 		// representative ranges: both ends, the middle, first/last character,
 		// the interior, everything
 		pairs := [][2]int{{0, 0}, {n, n}, {n / 2, n / 2}, {0, 1}, {1, n - 1}, {n - 1, n}, {0, n}}
-		r := pairs[zzvsym.IntRange(name+"_r", 0, len(pairs)-1)]
+		ri := zzvsym.IntRange(name+"_r", 0, len(pairs)-1)
+		if vSmallAlphabet {
+			// reduced alphabet for deep histories: both ends, first character, interior, everything
+			zzvsym.Assume(ri != 2 && ri != 5)
+		}
+		r := pairs[ri]
 		zzvsym.Assume(r[0] >= 0 && r[0] <= r[1] && r[1] <= n)
 		op.i, op.j = r[0], r[1]
 		op.k = zzvsym.IntRange(name+"_k", 0, 2)
@@ -118,9 +123,15 @@ func vPick(d *Document, name string, typ int, val int) vOp {
 		case 0: // insert text inside the first paragraph
 			zzvsym.Assume(len(sizes) > 0)
 			op.i = zzvsym.IntRange(name+"_i", 1, sizes[0]-1)
+			if vSmallAlphabet {
+				zzvsym.Assume(op.i == 1 || op.i == sizes[0]-1) // front or back
+			}
 		case 1: // delete one character of the first paragraph
 			zzvsym.Assume(len(sizes) > 0 && sizes[0] > 2)
 			op.i = zzvsym.IntRange(name+"_i", 1, sizes[0]-2)
+			if vSmallAlphabet {
+				zzvsym.Assume(op.i == 1 || op.i == sizes[0]-2) // first or last character
+			}
 		case 2: // insert a whole element at a paragraph boundary
 			j := zzvsym.IntRange(name+"_i", 0, len(sizes))
 			for _, sz := range sizes[:j] {
